@@ -33,11 +33,12 @@ type Step struct {
 }
 
 type History struct {
-	ID    int    `json:"id"`
-	Kind  string `json:"kind"`
-	Steps []Step `json:"steps"`
-	Race  string `json:"race"`
-	Note  string `json:"note"`
+	ID     int      `json:"id"`
+	Kind   string   `json:"kind"`
+	Steps  []Step   `json:"steps"`
+	Race   string   `json:"race"`
+	Events []string `json:"events"` // midicatdrv only: the verif hook's events of the in port, in lock order
+	Note   string   `json:"note"`
 }
 
 // Adapter drives one real port pair.
